@@ -23,6 +23,9 @@ use std::sync::Arc;
 pub enum Program {
     Scripted(c03::Case),
     Sdk(gen::Program),
+    /// a scripted program stored as two files: lines i .. 2i+2 are in `part.ds`, which `main.ds` includes in their
+    /// place - so the last line of the included file and the line after the directive carry the same line number
+    Split(c03::Case, usize),
 }
 
 #[derive(Serialize, Deserialize, Clone, Debug, PartialEq)]
@@ -180,6 +183,29 @@ fn run_program(program: &Program, env: &WorkerEnv, flag: Arc<AtomicBool>) -> Res
             end_of(r)
         }
         Program::Sdk(p) => end_of(gen::run_real(p, Some(flag), None)),
+        Program::Split(c, i) => {
+            let mut c = c.clone();
+            c.file_mode = false;
+            c03::install_world(&c, None);
+            let text = c03::render(&c.lines);
+            let lines: Vec<&str> = text.lines().collect();
+            let (i, j) = (*i, 2 * *i + 2);
+            if j > lines.len() {
+                let (r, _) = c03::run_real(&c, env, "run", Some(flag));
+                return end_of(r);
+            }
+            let mut main: Vec<String> = lines[..i].iter().map(|l| l.to_string()).collect();
+            main.push("!include_files part.ds".to_string());
+            main.extend(lines[j..].iter().map(|l| l.to_string()));
+            let dir = env.jail_root.join(format!("run13-{}", env.worker_id));
+            let _ = std::fs::create_dir_all(&dir);
+            let _ = std::fs::write(dir.join("part.ds"), format!("{}\n", lines[i..j].join("\n")));
+            let path = dir.join("main.ds");
+            let _ = std::fs::write(&path, format!("{}\n", main.join("\n")));
+            let r = duckscript::runner::run_script_file(&path.to_string_lossy(), c03::build_context(&c), Some(sim::embedder_env(Some(flag))));
+            let _ = std::fs::remove_dir_all(&dir);
+            end_of(r)
+        }
     }
 }
 
@@ -822,6 +848,10 @@ fn gen_program(rng: &mut Rng, looping: bool) -> Program {
             c.budget = 100_000;
         } else {
             c.budget = 20 + rng.below(200);
+            if c.lines.len() >= 2 && rng.chance(1, 5) {
+                let i = rng.usize((c.lines.len() - 2) / 2 + 1);
+                return Program::Split(c, i);
+            }
         }
         Program::Scripted(c)
     } else {
@@ -842,7 +872,7 @@ impl Prop for C13 {
     fn info(&self) -> PropInfo {
         PropInfo {
             level: "fault_enumeration",
-            rule: "one evaluation = one program. Mode A (3 of 4 runs): the program is first run unhalted (cut at 300 steps), then re-run once for EVERY depth-0 instruction boundary k and each applicable position (before the command body / after it / during its on_error handler / from a nested invocation), the halt flag being raised at exactly that point; each halted run must be the exact prefix of the unhalted one (events, Ok result, variables as after instruction k); at odd k the embedder keeps no handle of the flag and it is raised through the run's Env, which then holds the only one. Mode B (1 of 4): a halter thread raises the flag under shuttle's seeded random or PCT scheduler and exits, leaving the run's Env as the only holder. Long haul (1 of 250): a non-terminating 4-line loop runs 10^3 to 5*10^5 instructions without event recording before the flag is raised from inside; no further top-level instruction may start (faults_fired.F6 counts halted executions of all modes). Programs: scripted goto/error programs without SDK (incl. output-only lines, handler registered while running) and while/for-in/function programs over the real SDK, some non-terminating. Non-trivial = at least 3 steps and the flag was actually raised; distinct = distinct abstract traces of the combined log",
+            rule: "one evaluation = one program. Mode A (3 of 4 runs): the program is first run unhalted (cut at 300 steps), then re-run once for EVERY depth-0 instruction boundary k and each applicable position (before the command body / after it / during its on_error handler / from a nested invocation), the halt flag being raised at exactly that point; each halted run must be the exact prefix of the unhalted one (events, Ok result, variables as after instruction k); at odd k the embedder keeps no handle of the flag and it is raised through the run's Env, which then holds the only one. Mode B (1 of 4): a halter thread raises the flag under shuttle's seeded random or PCT scheduler and exits, leaving the run's Env as the only holder. Long haul (1 of 250): a non-terminating 4-line loop runs 10^3 to 5*10^5 instructions without event recording before the flag is raised from inside; no further top-level instruction may start (faults_fired.F6 counts halted executions of all modes). Programs: scripted goto/error programs without SDK (incl. output-only lines, handler registered while running; one in five stored as two files, lines i..2i+2 in an included file, so that two adjacent instructions carry the same line number) and while/for-in/function programs over the real SDK, some non-terminating. Non-trivial = at least 3 steps and the flag was actually raised; distinct = distinct abstract traces of the combined log",
             real: &["duckscript::runner (poll site, result handling)", "duckscript::parser", "Env.halt: the std Arc<AtomicBool>", "SDK flow control (while/for/if/function/goto) in Sdk programs"],
             stub: &["harness commands (scripted answers, emit, cnd)", "OS scheduler (replaced by shuttle in mode B)", "out/err streams"],
             assumptions: &["a store that lands between a poll and the next command start is observationally the same as one landing inside that command (both are covered)", "mode B: the runner thread yields only inside decorated invocations and stream writes"],
@@ -919,6 +949,7 @@ impl Prop for C13 {
                 c03::C03.shrink(&v).into_iter().filter_map(|x| serde_json::from_value::<c03::Case>(x).ok()).map(Program::Scripted).collect()
             }
             Program::Sdk(p) => gen::shrink_program(p).into_iter().map(Program::Sdk).collect(),
+            Program::Split(_, _) => vec![],
         };
         if let Mode::A { only: None } = &case.mode {
             // try to pin to a single boundary first: cheap and makes every later step faster
